@@ -2,11 +2,13 @@ SPECIFICATION Spec
 CONSTANTS
   ClassLevelPropagate = TRUE
   ParamResolve = FALSE
+  InitRestated = TRUE
   OriginFromSuper = FALSE
   AllowModifyBusy = FALSE
-  Parent <- Chain4
+  Parent <- Chain3
   Mode = "clsq"
-  QSels = {{1},{2},{3}}
+  QSels = {{1}, {2}, {3}}
+  Vias = {"api", "mof"}
   InstKeys = {}
   WithModify = FALSE
   AllFlags = FALSE
